@@ -456,6 +456,56 @@ def check_exports(case, ctx):
     ctx.check(same, "file-vs-string", "%s: the file form and the string form differ" % what)
 
 
+# ------------------------------------------------------------------------------------------------ containers
+@st.composite
+def _cont_cases(draw, tier):
+    n = draw(st.integers(2, 3))
+    shapes = [_surface(draw, False) for _ in range(n)]
+    return {"shapes": shapes, "n": draw(st.integers(2, 7)), "k": draw(st.integers(1, 2)), "twice": draw(st.booleans())}
+
+
+def check_container(case, ctx):
+    """The aggregated mesh of a SurfaceContainer: consecutively numbered vertices, faces in range, and every
+    face reproduces the triangle of the element's own tessellation."""
+    n, k = case["n"], case["k"]
+    n = ((n - 1) // k) * k + 1 if n - 1 >= k else k + 1
+    refs = []
+    for d in case["shapes"]:
+        o = build.make(d)
+        o.sample_size_u, o.sample_size_v = n, n
+        o.tessellate(vertex_spacing=k)
+        refs.append(([list(v.data) for v in o.vertices], [list(f.data) for f in o.faces]))
+    cont = multi.SurfaceContainer(*[build.make(d) for d in case["shapes"]])
+    # containers hand their delta to the elements (the container's own sample_size uses another convention, 1/(n-1),
+    # which is not part of this property), so the density is set through delta
+    cont.delta = 1.0 / n
+    cont.tessellate(vertex_spacing=k)
+    if case["twice"]:
+        _ = cont.vertices, cont.faces
+        cont.tessellate(vertex_spacing=k)          # a second call must not renumber anything
+    verts, faces = cont.vertices, cont.faces
+    what = "container of %d surfaces, %dx%d samples, spacing %d%s" % (len(refs), n, n, k, ", tessellated twice" if case["twice"] else "")
+    ctx.nt(True, "container>=2")
+    ctx.label("tessellate-twice", case["twice"])
+    ctx.check(len(verts) == sum(len(v) for v, _ in refs) and len(faces) == sum(len(f) for _, f in refs), "container-counts",
+              "%s: %d vertices / %d faces, the elements have %d / %d" % (what, len(verts), len(faces), sum(len(v) for v, _ in refs), sum(len(f) for _, f in refs)))
+    ids = [v.id for v in verts]
+    ctx.check(ids == list(range(len(verts))), "vertex-ids", "%s: aggregated vertex ids are not 0..V-1: %r..." % (what, ids[:14]))
+    fids = [f.id for f in faces]
+    ctx.check(fids == list(range(len(faces))), "face-ids", "%s: aggregated face ids are not 0..F-1: %r..." % (what, fids[:14]))
+    expect = []
+    for vs, fs in refs:
+        for f in fs:
+            expect.append([vs[i] for i in f])
+    pos = {v.id: list(v.data) for v in verts}
+    for f, tri in zip(faces, expect):
+        dd = list(f.data)
+        ctx.check(all(0 <= i < len(verts) for i in dd), "face-index-range", "%s: face %r out of range" % (what, dd))
+        got = [pos.get(i) for i in dd]
+        ctx.check(all(g is not None and all(abs(a - b) <= 1e-12 * (1 + abs(b)) for a, b in zip(g, t)) for g, t in zip(got, tri)), "container-face-coordinates",
+                  "%s: face %r resolves to %r, the element's triangle is %r" % (what, dd, got, tri))
+
+
 SUBCHECKS = [
     SubCheck("triangles", _tri_cases, check_triangles, quick=200, thorough=1000,
              rule="non-trivial = different vertex counts per direction, or vertex spacing >= 2"),
@@ -465,4 +515,6 @@ SUBCHECKS = [
              rule="every case is trimmed (polygon / spline trims of both senses); not-simple generated polygons are skipped and counted"),
     SubCheck("exports", _export_cases, check_exports, quick=200, thorough=800,
              rule="non-trivial = container of >= 2 surfaces, or spacing >= 2, or nu != nv"),
+    SubCheck("container", _cont_cases, check_container, quick=120, thorough=500, shards_thorough=8,
+             rule="every case aggregates the meshes of 2-3 surfaces in a SurfaceContainer"),
 ]
